@@ -52,6 +52,15 @@ def analyze_source(repo, module, source, qual='<reference>'):
     return fa
 
 
+def sibling_renames(parent_fa, ref_parent):
+    """Map references to nested functions of the real parent onto the nested
+    functions of the reference parent (matched by order of definition)."""
+    out = {}
+    for (an, aq), (rn, rq) in zip(parent_fa.nested.items(), ref_parent.nested.items()):
+        out[('fn', aq)] = ('fn', rq)
+    return out
+
+
 def _is_logging(t):
     s = T.show(t)
     if s in ('print', 'click.echo', 'warnings.warn'):
@@ -143,7 +152,8 @@ def _show_effect(p, gs):
 
 
 def compare(ctx, rule, fa, ref_source, module=None, known=(), ignore=None, why='',
-            drop_guards=(), only_kinds=None, positional_params=True, ref_fa=None, extra_rename=None):
+            drop_guards=(), only_kinds=None, positional_params=True, ref_fa=None, extra_rename=None,
+            normalize=None):
     """Compare the effects of ``fa`` with those of the reference.  ``known``:
     list of (predicate(found_str, expected_str) -> bool, key, reason) for
     recorded genuine defects."""
@@ -167,6 +177,15 @@ def compare(ctx, rule, fa, ref_source, module=None, known=(), ignore=None, why='
             rename[T.V(fa.kwarg)] = T.V(ref.kwarg)
     got = effects(fa, rename, drop_guards=drop_guards)
     want = effects(ref, drop_guards=drop_guards)
+    if normalize is not None:
+        def _n(lst):
+            out = []
+            for p, gs, e in lst:
+                p2 = tuple(T.transform(x, normalize) if isinstance(x, tuple) else x for x in p)
+                gs2 = frozenset((T.transform(c, normalize), pol) for c, pol in gs)
+                out.append((p2, gs2, e))
+            return out
+        got, want = _n(got), _n(want)
     _ABBREV.clear()
     _ABBREV.update(_abbrev_table(ref))
     if only_kinds:
